@@ -41,6 +41,11 @@ func (fr *frame) call(in ssa.Instruction, c *ssa.CallCommon, st *State, reach st
 		if ct := fc.e.specs.Funcs[key]; ct != nil {
 			return fr.applyContract(ct, nil, c.Method.Type().(*types.Signature), args, append([]ssa.Value{c.Value}, c.Args...), in, st, reach, pos)
 		}
+		if rt, ok := recv.(Term); ok && rt.Sort == SAny {
+			if v, ok := fr.ifaceDispatch(rt, c, args, st, reach, pos); ok {
+				return v
+			}
+		}
 		return fr.unknownCall(key, c.Signature(), st, reach, pos)
 	}
 	for _, a := range c.Args {
@@ -80,6 +85,7 @@ func (fr *frame) staticCall(f *ssa.Function, bindings []Val, in ssa.Instruction,
 			env.fr = fr
 			blk := in.Block()
 			env.lookup = func(name string) (CVal, bool) { return fr.lookupVarAt(name, blk) }
+			env.lookupAddr = fr.lookupAddr
 			for k, p := range f.Params {
 				if k < len(args) {
 					if t, ok := args[k].(Term); ok {
@@ -110,6 +116,7 @@ func (fr *frame) staticCall(f *ssa.Function, bindings []Val, in ssa.Instruction,
 				}
 			}
 		}
+		fr.callBindings = bindings
 		return fr.applyContract(ct, f, f.Signature, args, c.Args, in, st, reach, pos)
 	}
 	if f.Blocks != nil && (f.Parent() != nil || isTrivial(f)) {
@@ -122,7 +129,52 @@ func (fr *frame) staticCall(f *ssa.Function, bindings []Val, in ssa.Instruction,
 		fc.derived[key] = true
 		return fr.inline(f, args, bindings, st, reach, pos, in)
 	}
+	// a small loop-free helper of the repository without a contract (typically the product of an
+	// "extract function" refactoring) is verified as part of its caller rather than havocing the heap
+	if f.Blocks != nil && strings.HasPrefix(key, "github.com/google/badwolf") && fc.inlineDepth < 3 && smallHelper(f) {
+		fc.derived[key] = true
+		return fr.inline(f, args, bindings, st, reach, pos, in)
+	}
 	return fr.unknownCall(key, f.Signature, st, reach, pos)
+}
+
+// smallHelper: at most 80 instructions, no loop (no block reaches itself), no go/select/defer, no
+// direct self call.
+func smallHelper(f *ssa.Function) bool {
+	n := 0
+	for _, b := range f.Blocks {
+		n += len(b.Instrs)
+		for _, in := range b.Instrs {
+			switch x := in.(type) {
+			case *ssa.Go, *ssa.Select, *ssa.Defer:
+				return false
+			case ssa.CallInstruction:
+				if x.Common().StaticCallee() == f {
+					return false
+				}
+			}
+		}
+	}
+	if n > 80 {
+		return false
+	}
+	// cycle detection
+	state := map[*ssa.BasicBlock]int{}
+	var dfs func(b *ssa.BasicBlock) bool
+	dfs = func(b *ssa.BasicBlock) bool {
+		state[b] = 1
+		for _, s := range b.Succs {
+			if state[s] == 1 {
+				return false
+			}
+			if state[s] == 0 && !dfs(s) {
+				return false
+			}
+		}
+		state[b] = 2
+		return true
+	}
+	return len(f.Blocks) > 0 && dfs(f.Blocks[0])
 }
 
 // unknownCall: no contract. Havoc everything, unconstrained result.
@@ -300,10 +352,20 @@ func (fr *frame) applyContract(ct *FuncContract, f *ssa.Function, sig *types.Sig
 		}
 		return fc.fresh("arg", fc.e.sortOf(t))
 	}
+	bindings := fr.callBindings
+	fr.callBindings = nil
 	if f != nil {
 		for i, p := range f.Params {
 			if i < len(args) {
 				env.vars[p.Name()] = CVal{toTerm(args[i], p.Type()), argT(i, p.Type())}
+			}
+		}
+		// a closure under contract: its captured variables (cells) are named in its contract
+		for i, fv := range f.FreeVars {
+			if i < len(bindings) {
+				if t, ok := bindings[i].(Term); ok {
+					env.vars[fv.Name()] = CVal{t, fv.Type()}
+				}
 			}
 		}
 	} else {
@@ -391,8 +453,12 @@ func (fr *frame) applyContract(ct *FuncContract, f *ssa.Function, sig *types.Sig
 		o := fc.oblig("frame", "frame.call."+cname, and(frameGoals...), reach, pos, nil)
 		o.Src = "everything " + shortKey(ct.Key) + " may modify is covered by the caller's modifies clause (or freshly allocated)"
 	}
+	var modAllNames []string
 	for _, n := range ct.ModAll {
-		hn := fc.resolveHeapName(n, ct.Pkg)
+		modAllNames = append(modAllNames, fc.resolveHeapNames(n, ct.Pkg)...)
+	}
+	for _, hn := range modAllNames {
+		n := hn
 		if fc.c != nil && !fc.modEvery && !fc.modAll[hn] {
 			fc.oblig("frame", "frame.call."+cname+"."+hn, "false", reach, pos, nil).Src = "callee modifies heap(" + n + ")"
 		}
@@ -1025,4 +1091,125 @@ func (fr *frame) havocOutside(st *State, pkg string) {
 	for n, v := range keep {
 		st.heap[n] = v
 	}
+}
+
+
+// ifaceDispatch: a method call through an interface that has no contract of its own is split over
+// the implementations of the interface in the repository (closed world: every type of the loaded
+// program whose method set implements the interface), provided each of them is under contract.
+// The obligation call.dynamic.receiver-known states that the receiver is one of them.
+func (fr *frame) ifaceDispatch(recv Term, c *ssa.CallCommon, args []Val, st *State, reach string, pos token.Pos) (Val, bool) {
+	fc := fr.fc
+	iface, ok := c.Value.Type().Underlying().(*types.Interface)
+	if !ok {
+		return nil, false
+	}
+	var impls []string
+	for k, f := range fc.e.funcs {
+		if f.Name() != c.Method.Name() || f.Signature.Recv() == nil || f.Pkg == nil || f.Synthetic != "" {
+			continue
+		}
+		if !strings.HasPrefix(f.Pkg.Pkg.Path(), "github.com/google/badwolf") {
+			continue
+		}
+		if !types.Implements(f.Signature.Recv().Type(), iface) {
+			continue
+		}
+		impls = append(impls, k)
+	}
+	sort.Strings(impls)
+	if len(impls) == 0 {
+		return nil, false
+	}
+	for _, k := range impls {
+		if fc.e.specs.Funcs[k] == nil {
+			return nil, false
+		}
+	}
+	type res struct {
+		cond string
+		st   *State
+		v    Val
+	}
+	var alts []string
+	var conds []string
+	for _, k := range impls {
+		f := fc.e.funcs[k]
+		is := fc.e.hasType(recv, f.Signature.Recv().Type()).S
+		alts = append(alts, is)
+		conds = append(conds, is)
+	}
+	o := fc.oblig("pre", "call.dynamic.receiver-known", or(alts...), reach, pos, nil)
+	o.Src = "the receiver of " + c.Method.Name() + " is one of the " + strconv.Itoa(len(impls)) + " implementations under contract: " + strings.Join(impls, ", ")
+	fc.trusted["closed world: the implementations of "+shortType(c.Value.Type())+" are those of the repository"] = true
+	pre := st.clone()
+	var rs []res
+	for n, k := range impls {
+		f := fc.e.funcs[k]
+		cond := and(reach, conds[n])
+		s2 := pre.clone()
+		a2 := append([]Val{fc.e.unbox(recv, f.Signature.Recv().Type())}, args[1:]...)
+		// the contract's parameters: receiver first
+		sub := append([]*ssa.Parameter{}, f.Params...)
+		_ = sub
+		v := fr.applyContract(fc.e.specs.Funcs[k], f, f.Signature, a2, append([]ssa.Value{nil}, c.Args...), nil, s2, cond, pos)
+		rs = append(rs, res{cond, s2, v})
+	}
+	names := map[string]string{}
+	epoch := 0
+	for _, r := range rs {
+		if r.st.epoch > epoch {
+			epoch = r.st.epoch
+		}
+		for k, v := range r.st.heap {
+			names[k] = v.Sort
+		}
+	}
+	st.epoch = epoch
+	var keys []string
+	for k := range names {
+		keys = append(keys, k)
+	}
+	sort.Strings(keys)
+	for _, k := range keys {
+		same := true
+		var first Term
+		for n, r := range rs {
+			t := fc.heapGet(r.st, k, names[k])
+			if n == 0 {
+				first = t
+			} else if t.S != first.S {
+				same = false
+			}
+		}
+		if same {
+			st.heap[k] = first
+			continue
+		}
+		j := fc.fresh(k+"_d", names[k])
+		for _, r := range rs {
+			fc.factIf(r.cond, eq(j.S, r.st.heap[k].S))
+		}
+		st.heap[k] = j
+	}
+	sig := c.Signature()
+	if sig.Results().Len() == 0 {
+		return nil, true
+	}
+	var out []Val
+	for i := 0; i < sig.Results().Len(); i++ {
+		srt := fc.e.sortOf(sig.Results().At(i).Type())
+		v := fc.fresh("dyn_r", srt)
+		for _, r := range rs {
+			var t Val = r.v
+			if tp, ok := r.v.(*Tuple); ok {
+				t = tp.Elems[i]
+			}
+			if tt, ok := t.(Term); ok {
+				fc.factIf(r.cond, eq(v.S, tt.S))
+			}
+		}
+		out = append(out, v)
+	}
+	return packVals(out), true
 }
